@@ -73,12 +73,7 @@ func extName(f *ssa.Function) string {
 }
 
 func typeStr(t types.Type) string {
-	return types.TypeString(t, func(p *types.Package) string {
-		if strings.HasPrefix(p.Path(), modPath) {
-			return short(p.Path())
-		}
-		return p.Path()
-	})
+	return canonTypeString(rawTypeStr(t))
 }
 
 // staticCallee returns the called module/external function if statically known.
@@ -352,13 +347,13 @@ func fieldAddr(v ssa.Value) (base ssa.Value, structName, field string, ok bool) 
 		if st == nil {
 			return nil, "", "", false
 		}
-		return x.X, namedName(deref(x.X.Type())), st.Field(x.Field).Name(), true
+		return x.X, namedName(deref(x.X.Type())), canonFieldName(st.Field(x.Field)), true
 	case *ssa.Field:
 		st, _ := x.X.Type().Underlying().(*types.Struct)
 		if st == nil {
 			return nil, "", "", false
 		}
-		return x.X, namedName(x.X.Type()), st.Field(x.Field).Name(), true
+		return x.X, namedName(x.X.Type()), canonFieldName(st.Field(x.Field)), true
 	}
 	return nil, "", "", false
 }
@@ -378,7 +373,7 @@ func derefStruct(t types.Type) *types.Struct {
 func namedName(t types.Type) string {
 	if n, ok := t.(*types.Named); ok {
 		if n.Obj().Pkg() != nil {
-			return short(n.Obj().Pkg().Path()) + "." + n.Obj().Name()
+			return canonTypeString(short(n.Obj().Pkg().Path()) + "." + n.Obj().Name())
 		}
 		return n.Obj().Name()
 	}
@@ -581,7 +576,7 @@ func origins(v ssa.Value, opt sliceOpts) []Origin {
 
 func fieldName(t types.Type, i int) string {
 	if st, ok := t.Underlying().(*types.Struct); ok && i < st.NumFields() {
-		return st.Field(i).Name()
+		return canonFieldName(st.Field(i))
 	}
 	return fmt.Sprint(i)
 }
@@ -597,6 +592,9 @@ func globalName(g *ssa.Global) string {
 	if g.Pkg != nil {
 		p := g.Pkg.Pkg.Path()
 		if strings.HasPrefix(p, modPath) {
+			if n, ok := aliasGlobal[g]; ok {
+				return short(p) + "." + n
+			}
 			return short(p) + "." + g.Name()
 		}
 		return p + "." + g.Name()
